@@ -50,6 +50,11 @@ fn _get_std_fds(redirects: &[Redirection]) -> (Option<RawFd>, Option<RawFd>) {
             }
         }
         *slot = Some(fd_new);
+        if fd_new < 0 {
+            // the command fails at the first target that cannot be opened,
+            // whatever is written after it
+            break;
+        }
     }
 
     (fd_out, fd_err)
